@@ -41,13 +41,24 @@ Print Assumptions C38_rules_sections_preserved_partial.
 Theorem C38_rules_parameters_preserved_partial : forall name s,
   se_type (conv_section name s) = (if String.eqb (se_type s) "" then "DeterministicSampler" else se_type s) /\
   se_fields (conv_section name s) = se_fields s /\
-  se_rules (conv_section name s) = se_rules s /\
+  se_rules (conv_section name s) = map conv_rule (se_rules s) /\
   (forall k v, In (k, v) (se_params s) -> k <> "ClearFrequencySec" -> k <> "AdjustmentInterval" ->
      In (k, v) (se_params (conv_section name s))) /\
   (forall v, In ("ClearFrequencySec", v) (se_params s) -> In ("ClearFrequency", (v * second)%Z) (se_params (conv_section name s))) /\
   (forall v, In ("AdjustmentInterval", v) (se_params s) -> In ("AdjustmentInterval", (v * second)%Z) (se_params (conv_section name s))).
 Proof. exact conv_section_spec. Qed.
 Print Assumptions C38_rules_parameters_preserved_partial.
+
+(* a sampler nested in a rule of a RulesBasedSampler keeps its type and parameters under the same fix-ups
+   (nested ClearFrequencySec n becomes ClearFrequency n s, nested numeric AdjustmentInterval n becomes n s) *)
+Theorem C38_nested_sampler_preserved_partial : forall r,
+  ru_text (conv_rule r) = ru_text r /\ ru_sub_type (conv_rule r) = ru_sub_type r /\
+  (forall k v, In (k, v) (ru_sub_params r) -> k <> "ClearFrequencySec" -> k <> "AdjustmentInterval" ->
+     In (k, v) (ru_sub_params (conv_rule r))) /\
+  (forall v, In ("ClearFrequencySec", v) (ru_sub_params r) -> In ("ClearFrequency", (v * second)%Z) (ru_sub_params (conv_rule r))) /\
+  (forall v, In ("AdjustmentInterval", v) (ru_sub_params r) -> In ("AdjustmentInterval", (v * second)%Z) (ru_sub_params (conv_rule r))).
+Proof. exact conv_rule_spec. Qed.
+Print Assumptions C38_nested_sampler_preserved_partial.
 
 (* One setting through converter and loader (valuetype policy of tools/convert/helpers.go, zero-is-unset policy
    of the v2 loader): the effective v2 value is the v1 value, or the v1 value is a zero that the v2 field cannot
